@@ -349,3 +349,108 @@ package tree
 //@     assigns Node.name
 //@     invariant [index_still_maps_original_names] nodeindex != nil && nodeindex.index != nil && (forall s string :: {has(nodeindex.index, s)} has(nodeindex.index, s) ==> nodeindex.index[s] != nil)
 //@     invariant [renamed_exactly_the_keys_already_delivered_whatever_the_order] forall s string :: {nodeindex.index[s]} has(nodeindex.index, s) ==> nodeindex.index[s].name == (visited(1, s) ? namemap[s] : s)
+
+// ---------------------------------------------------------------------------
+// Representation invariant of the tree heap (DESIGN 3.2), quantified over all
+// allocated nodes; dead nodes (neigh == br == nil) satisfy it vacuously.
+//   I1 parallel arrays   I2 entries are live objects, no self loop
+//   I3 a branch joins the node and the neighbour in the same slot
+//   I4 symmetry: the neighbour lists this node with the same branch object
+//   I5 simple graph      OWN adjacency arrays are not shared between nodes
+// ---------------------------------------------------------------------------
+
+//@ define deg(n *Node) int = len(n.neigh)
+//@ define I1(n *Node) bool = len(n.neigh) == len(n.br) && alloc_ok(n.neigh) && alloc_ok(n.br)
+//@ define I2(n *Node) bool = forall i int :: {n.neigh[i]} {n.br[i]} 0 <= i && i < len(n.neigh) ==> allocated(n.neigh[i]) && allocated(n.br[i]) && n.neigh[i] != n
+//@ define I3(n *Node) bool = forall i int :: {n.br[i]} 0 <= i && i < len(n.neigh) ==> (n.br[i].left == n && n.br[i].right == n.neigh[i]) || (n.br[i].right == n && n.br[i].left == n.neigh[i])
+//@ define I4(n *Node) bool = forall i int :: {n.neigh[i]} 0 <= i && i < len(n.neigh) ==> (exists j int :: {n.neigh[i].neigh[j]} 0 <= j && j < len(n.neigh[i].neigh) && n.neigh[i].neigh[j] == n && n.neigh[i].br[j] == n.br[i])
+//@ define I5(n *Node) bool = forall i int, j int :: {n.neigh[i], n.neigh[j]} 0 <= i && i < j && j < len(n.neigh) ==> n.neigh[i] != n.neigh[j]
+//@ define OWN() bool = forall n *Node, m *Node :: {n.neigh, m.neigh} {n.br, m.br} allocated(n) && allocated(m) && n != m ==> (arr(n.neigh) == 0 || arr(n.neigh) != arr(m.neigh)) && (arr(n.br) == 0 || arr(n.br) != arr(m.br))
+//@ define INV1() bool = forall n *Node :: {n.neigh} {n.br} allocated(n) ==> I1(n)
+//@ define INV2() bool = forall n *Node :: {n.neigh} {n.br} allocated(n) ==> I2(n)
+//@ define INV3() bool = forall n *Node :: {n.neigh} {n.br} allocated(n) ==> I3(n)
+//@ define INV4() bool = forall n *Node :: {n.neigh} {n.br} allocated(n) ==> I4(n)
+//@ define INV5() bool = forall n *Node :: {n.neigh} {n.br} allocated(n) ==> I5(n)
+//@ define INV() bool = INV1() && INV2() && INV3() && INV5() && OWN()
+//@ define adjacent(a *Node, b *Node) bool = exists i int :: {a.neigh[i]} 0 <= i && i < len(a.neigh) && a.neigh[i] == b
+
+//@ func (*tree.Tree).ConnectNodes
+//@   requires t != nil && allocated(parent) && allocated(child) && parent != child
+//@   requires INV() && !adjacent(parent, child) && !adjacent(child, parent)
+//@   allocates Edge, []*Node, []*Edge, []string
+//@   assigns parent.neigh, parent.br, child.neigh, child.br, elems(parent.neigh), elems(parent.br), elems(child.neigh), elems(child.br)
+//@   ensures [fresh_branch_from_parent_to_child] fresh(result) && result.left == parent && result.right == child && result.length == -1.0 && result.support == -1.0 && result.pvalue == -1.0 && result.id == -1
+//@   ensures [appended_last_on_both_sides] deg(parent) == old(deg(parent)) + 1 && deg(child) == old(deg(child)) + 1 && parent.neigh[deg(parent) - 1] == child && parent.br[deg(parent) - 1] == result && child.neigh[deg(child) - 1] == parent && child.br[deg(child) - 1] == result
+//@   ensures [earlier_slots_kept] (forall k int :: {parent.neigh[k]} {parent.br[k]} 0 <= k && k < old(deg(parent)) ==> parent.neigh[k] == old(parent.neigh[k]) && parent.br[k] == old(parent.br[k])) && (forall k int :: {child.neigh[k]} {child.br[k]} 0 <= k && k < old(deg(child)) ==> child.neigh[k] == old(child.neigh[k]) && child.br[k] == old(child.br[k]))
+//@   ensures [hint_other_nodes_untouched] forall n *Node :: {n.neigh} {n.br} allocated(n) && n != parent && n != child ==> n.neigh == old(n.neigh) && n.br == old(n.br)
+//@   ensures [hint_every_old_slot_kept] forall n *Node, k int :: {n.neigh[k]} {n.br[k]} {old(n.neigh[k])} {old(n.br[k])} allocated(n) && 0 <= k && k < old(deg(n)) ==> n.neigh[k] == old(n.neigh[k]) && n.br[k] == old(n.br[k])
+//@   ensures [hint_degrees_do_not_shrink] forall n *Node :: {deg(n)} allocated(n) ==> deg(n) >= old(deg(n)) && (n != parent && n != child ==> deg(n) == old(deg(n)))
+//@   ensures [inv1] INV1()
+//@   ensures [inv2] INV2()
+//@   ensures [inv3] INV3()
+//@   ensures [inv4_case_parent_new_slot] exists j int :: 0 <= j && j < deg(child) && child.neigh[j] == parent && child.br[j] == parent.br[deg(parent) - 1]
+//@   ensures [inv4_case_child_new_slot] exists j int :: 0 <= j && j < deg(parent) && parent.neigh[j] == child && parent.br[j] == child.br[deg(child) - 1]
+//@   ensures [inv5] INV5()
+//@   ensures [own] OWN()
+
+//@ func (*tree.Node).NodeIndex
+//@   requires n != nil
+//@   allocates iface
+//@   assigns nothing
+//@   ensures [found_first_occurrence] result1 == nil ==> 0 <= result0 && result0 < deg(n) && n.neigh[result0] == next && (forall k int :: {n.neigh[k]} 0 <= k && k < result0 ==> n.neigh[k] != next)
+//@   ensures [error_iff_absent] result1 != nil ==> result0 == -1 && (forall k int :: {n.neigh[k]} 0 <= k && k < deg(n) ==> n.neigh[k] != next)
+//@   loop 1
+//@     invariant [scanned_prefix_has_no_match] 0 <= i && (forall k int :: {n.neigh[k]} 0 <= k && k < i ==> n.neigh[k] != next)
+
+//@ func (*tree.Node).EdgeIndex
+//@   requires n != nil
+//@   allocates iface
+//@   assigns nothing
+//@   ensures [found_first_occurrence] result1 == nil ==> 0 <= result0 && result0 < len(n.br) && n.br[result0] == e && (forall k int :: {n.br[k]} 0 <= k && k < result0 ==> n.br[k] != e)
+//@   ensures [error_iff_absent] result1 != nil ==> result0 == -1 && (forall k int :: {n.br[k]} 0 <= k && k < len(n.br) ==> n.br[k] != e)
+//@   loop 1
+//@     invariant [scanned_prefix_has_no_match] 0 <= i && (forall k int :: {n.br[k]} 0 <= k && k < i ==> n.br[k] != e)
+
+// removes slot i (the first slot holding n2) from both parallel arrays, keeping the order of the others;
+// called in the middle of a surgery: requires only the node's own arrays to be parallel
+//@ func (*tree.Node).delNeighbor
+//@   requires n != nil && len(n.neigh) == len(n.br) && (arr(n.neigh) == 0 || arr(n.neigh) != 0)
+//@   allocates iface, []*Node, []*Edge
+//@   assigns n.neigh, n.br, elems(n.neigh), elems(n.br)
+//@   ensures [error_means_not_a_neighbour_and_nothing_changed] err != nil ==> (forall k int :: {old(n.neigh[k])} 0 <= k && k < old(deg(n)) ==> old(n.neigh[k]) != n2) && n.neigh == old(n.neigh) && n.br == old(n.br)
+//@   ensures [one_slot_less] err == nil ==> deg(n) == old(deg(n)) - 1 && len(n.br) == old(len(n.br)) - 1
+//@   ensures [slots_before_kept_slots_after_shifted] err == nil ==> (exists i int :: 0 <= i && i < old(deg(n)) && old(n.neigh[i]) == n2 && (forall k int :: {old(n.neigh[k])} 0 <= k && k < i ==> old(n.neigh[k]) != n2) && (forall k int :: {n.neigh[k]} {n.br[k]} 0 <= k && k < deg(n) ==> n.neigh[k] == old(n.neigh[k < i ? k : k + 1]) && n.br[k] == old(n.br[k < i ? k : k + 1])))
+//@   ensures [same_backing_arrays] err == nil ==> arr(n.neigh) == old(arr(n.neigh)) && arr(n.br) == old(arr(n.br)) && off(n.neigh) == old(off(n.neigh)) && off(n.br) == old(off(n.br))
+
+// ---------------------------------------------------------------------------
+// Orientation: every node has at most one incoming branch, the root has none
+// ---------------------------------------------------------------------------
+
+//@ define ORI1(n *Node) bool = forall i int, j int :: {n.br[i], n.br[j]} 0 <= i && i < j && j < len(n.br) ==> !(n.br[i].right == n && n.br[j].right == n)
+//@ define ORI() bool = forall n *Node :: {n.br} allocated(n) ==> ORI1(n)
+//@ define ROOTOK(t *Tree) bool = t.root != nil && allocated(t.root) && (forall i int :: {t.root.br[i]} 0 <= i && i < len(t.root.br) ==> t.root.br[i].left == t.root)
+//@ define linked(a *Node, b *Node) bool = exists i int, j int :: {a.neigh[i], b.neigh[j]} 0 <= i && i < len(a.neigh) && 0 <= j && j < len(b.neigh) && a.neigh[i] == b && b.neigh[j] == a && a.br[i] == b.br[j]
+
+// ---------------------------------------------------------------------------
+// NNI (property C17)
+// ---------------------------------------------------------------------------
+
+//@ define nniX(n *nni) *Node = n.cross ? n.n2_1 : n.n2_2
+//@ define nnishape(n *nni) bool = n != nil && n.t != nil && allocated(n.n1) && allocated(n.n2) && allocated(n.n1_2) && allocated(nniX(n)) && n.n1 != n.n2 && n.n1_2 != n.n1 && n.n1_2 != n.n2 && nniX(n) != n.n1 && nniX(n) != n.n2 && nniX(n) != n.n1_2 && deg(n.n1) == 3 && deg(n.n2) == 3 && linked(n.n1, n.n2) && linked(n.n1, n.n1_2) && linked(n.n2, nniX(n)) && !adjacent(n.n1, nniX(n)) && !adjacent(n.n2, n.n1_2) && !adjacent(nniX(n), n.n1) && !adjacent(n.n1_2, n.n2) && (forall k int :: {n.n1.neigh[k]} 0 <= k && k < 3 && n.n1.neigh[k] == n.n2 ==> n.n1.br[k].left == n.n1)
+
+//@ func (*tree.nni).Apply
+//@   requires nnishape(n) && INV() && ORI() && ROOTOK(n.t)
+//@   allocates iface
+//@   assigns n.applied, Edge.left, Edge.right, elems(n.n1.neigh), elems(n.n1.br), elems(n.n2.neigh), elems(n.n2.br), elems(n.n1_2.neigh), elems(nniX(n).neigh)
+//@   ensures [already_applied_is_a_no_op] old(n.applied) ==> err == nil && n.applied
+//@   ensures [applies] !old(n.applied) ==> err == nil && n.applied
+//@   ensures [n1_gets_the_other_subtree_in_the_same_slot] !old(n.applied) ==> (forall k int :: {n.n1.neigh[k]} 0 <= k && k < 3 ==> (old(n.n1.neigh[k]) == n.n1_2 ==> n.n1.neigh[k] == nniX(n)) && (old(n.n1.neigh[k]) != n.n1_2 ==> n.n1.neigh[k] == old(n.n1.neigh[k]) && n.n1.br[k] == old(n.n1.br[k])))
+//@   ensures [n2_gets_the_other_subtree_in_the_same_slot] !old(n.applied) ==> (forall k int :: {n.n2.neigh[k]} 0 <= k && k < 3 ==> (old(n.n2.neigh[k]) == nniX(n) ==> n.n2.neigh[k] == n.n1_2) && (old(n.n2.neigh[k]) != nniX(n) ==> n.n2.neigh[k] == old(n.n2.neigh[k]) && n.n2.br[k] == old(n.n2.br[k])))
+//@   ensures [central_branch_reversed_exactly_when_the_root_lies_beyond_n1_2] !old(n.applied) ==> (forall k int, m int :: {n.n1.br[k], n.n1.br[m]} 0 <= k && k < 3 && 0 <= m && m < 3 && old(n.n1.neigh[k]) == n.n2 && old(n.n1.neigh[m]) == n.n1_2 ==> (old(n.n1.br[m].right) == n.n1 ? (n.n1.br[k].left == old(n.n1.br[k].right) && n.n1.br[k].right == old(n.n1.br[k].left)) : (n.n1.br[k].left == old(n.n1.br[k].left) && n.n1.br[k].right == old(n.n1.br[k].right))))
+//@   ensures [inv1] INV1()
+//@   ensures [inv2] INV2()
+//@   ensures [inv3_every_branch_still_joins_its_node_and_the_neighbour_in_its_slot] INV3()
+//@   ensures [inv5] INV5()
+//@   ensures [own] OWN()
+//@   ensures [orientation_at_most_one_parent] ORI()
+//@   ensures [orientation_root_has_no_parent] ROOTOK(n.t)
